@@ -447,6 +447,10 @@ func (s *controlledSelector) HandleSuccessResponse(
 		case selectedPair != pair:
 			s.log.Tracef("Ignore nominate new pair %s, already nominated pair %s", pair, selectedPair)
 		}
+		// The deferred nomination has been acted upon: a later response on this pair must not
+		// replay it (it would undo a newer nomination of another pair).
+		pair.nominateOnBindingSuccess = false
+		pair.deferredNominationValue = nil
 	}
 
 	pair.UpdateRoundTripTime(rtt)
